@@ -705,7 +705,15 @@ func (e *Engine) verifyFunc(fn *ssa.Function, c *Contract) (rep *FuncReport) {
 		for _, m := range reEventLit.FindAllStringSubmatch(cl.Text, -1) {
 			for _, q := range reQuoted.FindAllStringSubmatch(m[1], -1) {
 				name := e.stableEventName(fn, q[1])
-				if !ctx.eventsSeen[name] && !seenLit[q[1]] {
+				seenEv := ctx.eventsSeen[name]
+				if strings.HasSuffix(name, ":*") {
+					for ev := range ctx.eventsSeen {
+						if strings.HasPrefix(ev, name[:len(name)-1]) {
+							seenEv = true
+						}
+					}
+				}
+				if !seenEv && !seenLit[q[1]] {
 					seenLit[q[1]] = true
 					rep.NeverEvents = append(rep.NeverEvents, q[1])
 				}
